@@ -76,7 +76,12 @@ def gen(rng, tier):
         else:
             cnt = rng.choice([0, 1, 2, 3, 5, 17])
             xs = [value(rng, bits) for _ in range(cnt)]
-            yield '%s %d %s' % (rng.choice(['sum', 'sumref']), bits, ','.join(hx(x) for x in xs) if xs else '-')
+            toks = [hx(x) for x in xs]
+            if rng.random() < 0.35:
+                # a non-fused iterator: `None` somewhere (also first / last), items after it must not count
+                for _ in range(rng.choice([1, 1, 2])):
+                    toks.insert(rng.randrange(len(toks) + 1), 'N')
+            yield '%s %d %s' % (rng.choice(['sum', 'sumref']), bits, ','.join(toks) if toks else '-')
             k += 1
 
 
